@@ -348,6 +348,20 @@ class Printable:
             return hcmd._make_help_text(self.obj)
         raise ValueError(k)
 
+    def line_items(self, **kw):
+        """Iterator over the items a consumer gets when it takes the rendering piece by piece, and the
+        separator that joins their texts to the whole: lines of a CHTextResult, lines of the console help
+        (the generator HCommand._make_help_text joins), columns of a formatted record."""
+        k = self.kind
+        if k == "hdoc":
+            assert not kw
+            from ak.hdoc import HCommand
+            hcmd = self.extra if self.extra is not None else HCommand(HCommand._LEVEL_HH)
+            return hcmd._gen_ch_lines(self.obj, HCommand._DFLT_FILT_ARG, hcmd.dets_level, False), "\n"
+        if k == "recfmt":
+            return iter(self.obj(self.extra, **kw).columns), " "
+        return iter(self.result(**kw)), "\n"
+
     @property
     def palette_class(self):
         return palettes().get(self.kind)
@@ -451,7 +465,37 @@ def _serve(req):
     if name in ITERABLE:
         out["lines"] = [line_text(line) for line in p.result(**kw)]
         out["lines_str"] = [str(line) for line in p.result(**kw)]     # plain str() of every line object
+    out["kept"] = kept_items(p, kw)
     return out
+
+
+def _item_len(item):
+    try:
+        return len(item)
+    except TypeError:
+        return None
+
+
+def kept_items(p, kw):
+    """A consumer that *keeps* the line objects: texts taken immediately, texts and len() of the same
+    objects taken after the iterator is exhausted (and, for a record formatter, after the formatter was
+    used again), and the texts of objects collected first and read only at the end."""
+    it, sep = p.line_items(**kw)
+    keep, imm, imm_len = [], [], []
+    for item in it:
+        keep.append(item)
+        imm.append(line_text(item))
+        imm_len.append(_item_len(item))
+    if p.kind == "recfmt":
+        p.result(**kw)                                  # the formatter renders again; kept columns must stay
+    late = [line_text(x) for x in keep]
+    late_len = [_item_len(x) for x in keep]
+    it2, _ = p.line_items(**kw)
+    collected = list(it2)                               # nothing looked at until the iterator is exhausted
+    only_late = [line_text(x) for x in collected]
+    only_late_len = [_item_len(x) for x in collected]
+    return {"sep": sep, "imm": imm, "imm_len": imm_len, "late": late, "late_len": late_len,
+            "only_late": only_late, "only_late_len": only_late_len}
 
 
 def pristine(requests, repo=None, parallel=16):
